@@ -1,12 +1,366 @@
-//! C04 — not built yet (stub; see DESIGN.md §5).
-use crate::ctx::Tier;
-use serde_json::Value;
+//! C04 (mc part) — multiplexed calls each receive their own response, for the
+//! two tokio clients over in-memory streams: every permutation of the reply
+//! order for up to N concurrent calls x every insertion position of one extra
+//! frame (unknown id, duplicate, notify reusing an in-flight id) x delivery
+//! mode, batch alignment, and replies delivered while the request's own write
+//! is still blocked. The blocking client is decided under loom (lm part).
 
-pub fn run(_tier: Tier) -> ! {
-    eprintln!("MACHINERY-ERROR property=C04 check not built yet");
-    std::process::exit(2)
+use crate::clients::{self, Cli, Conn, Kind, Peer, Res};
+use crate::ctx::{Ctx, Samples, Tier};
+use crate::memstream;
+use crate::par;
+use serde_json::{Value, json};
+use std::collections::BTreeMap;
+
+#[derive(Clone, Copy, Debug, PartialEq, Eq)]
+enum Extra {
+    None,
+    Unknown,
+    Dup(usize),
+    NotifyReuse(usize),
 }
 
-pub fn replay(_case: &Value) -> Result<(), String> {
-    Err("no replay for C04 yet".into())
+#[derive(Clone, Debug)]
+enum Scenario {
+    Perm { kind: Kind, n: usize, perm: Vec<usize>, extra: Extra, pos: usize, burst: bool },
+    Batch { kind: Kind, n: usize, perm: Vec<usize> },
+    /// reply delivered after only `header + k` bytes of the (large) request were accepted
+    Early { k: usize, queued_behind: bool },
 }
+
+fn permutations(n: usize) -> Vec<Vec<usize>> {
+    fn rec(cur: &mut Vec<usize>, used: &mut Vec<bool>, n: usize, out: &mut Vec<Vec<usize>>) {
+        if cur.len() == n {
+            out.push(cur.clone());
+            return;
+        }
+        for i in 0..n {
+            if !used[i] {
+                used[i] = true;
+                cur.push(i);
+                rec(cur, used, n, out);
+                cur.pop();
+                used[i] = false;
+            }
+        }
+    }
+    let mut out = Vec::new();
+    rec(&mut Vec::new(), &mut vec![false; n], n, &mut out);
+    out
+}
+
+fn scenarios(tier: Tier) -> Vec<Scenario> {
+    let mut v = Vec::new();
+    let max_n = tier.pick(5, 7);
+    for kind in [Kind::Async, Kind::Ws] {
+        for n in 1..=max_n {
+            for perm in permutations(n) {
+                let mut extras = vec![Extra::None, Extra::Unknown];
+                for j in 0..n {
+                    extras.push(Extra::Dup(j));
+                    extras.push(Extra::NotifyReuse(j));
+                }
+                for extra in extras {
+                    let positions = if extra == Extra::None { 0..1 } else { 0..n + 1 };
+                    for pos in positions {
+                        for burst in [false, true] {
+                            // bursts only for n <= 5 to keep thorough bounded
+                            if burst && n > 6 {
+                                continue;
+                            }
+                            v.push(Scenario::Perm { kind, n, perm: perm.clone(), extra, pos, burst });
+                        }
+                    }
+                }
+            }
+        }
+        for n in 1..=tier.pick(5, 6) {
+            for perm in permutations(n) {
+                v.push(Scenario::Batch { kind, n, perm });
+            }
+        }
+    }
+    for k in [0usize, 1, 2, 3, 10, 100, 8192 - 48, 8192 - 47, 19000] {
+        for queued_behind in [false, true] {
+            v.push(Scenario::Early { k, queued_behind });
+        }
+    }
+    v
+}
+
+type Bad = Vec<(String, String)>;
+
+async fn run_perm(kind: Kind, n: usize, perm: &[usize], extra: Extra, pos: usize, burst: bool) -> (Bad, u64) {
+    let mut bad = Bad::new();
+    let mut flags = 0u64;
+    let Conn { cli, mut peer, mut notifies } = clients::connect(kind).await;
+    let tags: Vec<u64> = (0..n as u64).map(|i| 100 + i).collect();
+    let calls: Vec<_> = tags.iter().map(|t| tokio::spawn(cli.call(*t, None, 0))).collect();
+    let reqs = match peer.drain_requests().await {
+        Ok(r) => r,
+        Err(e) => {
+            bad.push(("C04:request-stream-malformed".into(), e));
+            return (bad, flags);
+        }
+    };
+    let ids = clients::tag_ids(&reqs);
+    if ids.len() != n || reqs.len() != n {
+        bad.push(("C04:requests-missing".into(), format!("{} of {n} requests arrived (distinct tags {})", reqs.len(), ids.len())));
+        return (bad, flags);
+    }
+    let mut distinct: Vec<u64> = ids.values().copied().collect();
+    distinct.sort();
+    distinct.dedup();
+    if distinct.len() != n {
+        bad.push(("C04:duplicate-request-id".into(), format!("request ids are not distinct: {:?}", ids)));
+    }
+    // reply script
+    let mut script: Vec<crate::frames::Frame> = perm.iter().map(|i| clients::reply(ids[&tags[*i]])).collect();
+    let mut expected_notifies = 0;
+    let mut consumed_by_notify: Option<u64> = None;
+    match extra {
+        Extra::None => {}
+        Extra::Unknown => script.insert(pos, clients::reply(0xDEAD_BEEF)),
+        Extra::Dup(j) => script.insert(pos, clients::reply(ids[&tags[j]])),
+        Extra::NotifyReuse(j) => {
+            script.insert(pos, clients::notify_frame(ids[&tags[j]], 7));
+            expected_notifies = 1;
+            // AsyncClient has no notion of server-pushed notifies: if the frame arrives
+            // before call j's real reply, call j may consume it (allowed); nothing else may.
+            let real_pos = perm.iter().position(|x| *x == j).unwrap();
+            if kind == Kind::Async && pos <= real_pos {
+                consumed_by_notify = Some(tags[j]);
+            }
+        }
+    }
+    if perm.windows(2).any(|w| w[0] > w[1]) {
+        flags |= 1; // non-identity order
+    }
+    for f in &script {
+        peer.send(f).await;
+        if !burst {
+            memstream::settle().await;
+        }
+    }
+    memstream::settle().await;
+    for (i, h) in calls.into_iter().enumerate() {
+        let r = clients::join_call(h).await;
+        let own = ids[&tags[i]];
+        match (&r, consumed_by_notify) {
+            (Res::Id(got), _) if *got == own => {}
+            (Res::OkOther(_), Some(t)) if t == tags[i] => flags |= 2,
+            _ => bad.push((
+                format!("C04:wrong-response:{}", match r { Res::Hang => "hang", Res::Id(_) => "other-calls-response", _ => "error" }),
+                format!("{}: call #{i} (request id {own}) returned {r:?}; n={n} reply order {perm:?} extra {extra:?}@{pos} burst={burst}", kind.name()),
+            )),
+        }
+    }
+    if let (Kind::Ws, Some(rx)) = (kind, notifies.as_mut()) {
+        let mut got = 0;
+        while let Ok(m) = rx.try_recv() {
+            got += 1;
+            if m.header.notify == 0 {
+                bad.push(("C04:subscriber-got-response".into(), format!("the notification subscriber received a non-notify frame (id {})", m.header.id)));
+            }
+        }
+        if got != expected_notifies {
+            bad.push(("C04:notify-misrouted".into(), format!("WebSocketClient: subscriber received {got} notifications, {expected_notifies} were pushed; extra {extra:?}@{pos}, reply order {perm:?}")));
+        }
+        if expected_notifies > 0 {
+            flags |= 4;
+        }
+    }
+    if cli.pending() != 0 {
+        bad.push(("C04:pending-residue".into(), format!("{} pending entries after all calls returned", cli.pending())));
+    }
+    drop(peer);
+    (bad, flags)
+}
+
+async fn run_batch(kind: Kind, n: usize, perm: &[usize]) -> (Bad, u64) {
+    let mut bad = Bad::new();
+    let Conn { cli, mut peer, .. } = clients::connect(kind).await;
+    let tags: Vec<u64> = (0..n as u64).map(|i| 500 + i).collect();
+    let h = tokio::spawn(cli.batch(tags.clone()));
+    let reqs = match peer.drain_requests().await {
+        Ok(r) => r,
+        Err(e) => return (vec![("C04:request-stream-malformed".into(), e)], 0),
+    };
+    let ids = clients::tag_ids(&reqs);
+    if ids.len() != n {
+        return (vec![("C04:requests-missing".into(), format!("batch of {n}: {} requests arrived", reqs.len()))], 0);
+    }
+    for i in perm {
+        peer.send(&clients::reply(ids[&tags[*i]])).await;
+        memstream::settle().await;
+    }
+    match tokio::time::timeout(clients::HOUR, h).await {
+        Ok(Ok(results)) => {
+            if results.len() != n {
+                bad.push(("C04:batch-length".into(), format!("batch of {n} returned {} results", results.len())));
+            }
+            for (i, r) in results.into_iter().enumerate() {
+                let r = clients::classify(r);
+                if r != Res::Id(ids[&tags[i]]) {
+                    bad.push(("C04:batch-misaligned".into(), format!("{}: batch result #{i} is {r:?}, the request at that position had id {}; reply order {perm:?}", kind.name(), ids[&tags[i]])));
+                }
+            }
+        }
+        _ => bad.push(("C04:wrong-response:hang".into(), format!("{}: batch of {n} did not return; reply order {perm:?}", kind.name()))),
+    }
+    (bad, 8)
+}
+
+/// AsyncClient only: the peer learns the id from the first 48 bytes and replies
+/// while the rest of the (20 000-byte) request is still blocked in the writer.
+async fn run_early(k: usize, queued_behind: bool) -> (Bad, u64) {
+    let mut bad = Bad::new();
+    let (client_end, peer_end, ctl) = memstream::pair();
+    ctl.a_to_b.set_credit(Some(48 + k));
+    let s = 60_000 + (k % 1000) as u16 + if queued_behind { 1000 } else { 0 };
+    repe::verif_io::register_stream(s, client_end);
+    let c = repe::AsyncClient::connect(("127.254.77.1", s)).await.expect("connect");
+    let cli = Cli::Async(c);
+    let big = tokio::spawn(cli.call(1, None, 20_000));
+    memstream::settle().await;
+    let second = if queued_behind { Some(tokio::spawn(cli.call(2, None, 0))) } else { None };
+    memstream::settle().await;
+    let first = ctl.a_to_b.take();
+    let mut flags = 0;
+    if first.len() < 48 {
+        return (vec![("C04:early:header-not-written".into(), format!("only {} bytes reached the peer with credit {}", first.len(), 48 + k))], 0);
+    }
+    if big.is_finished() {
+        return (vec![("C04:early:no-stall".into(), "the large call finished before any reply".into())], 0);
+    }
+    if ctl.a_to_b.stalls() > 0 {
+        flags |= 16; // the reply really overtakes the blocked write
+    }
+    let hdr = crate::frames::Hdr::decode_raw(&first).unwrap();
+    ctl.b_to_a.push(&clients::reply(hdr.id).to_bytes());
+    memstream::settle().await;
+    ctl.a_to_b.set_credit(None);
+    memstream::settle().await;
+    let r = clients::join_call(big).await;
+    if r != Res::Id(hdr.id) {
+        bad.push((
+            format!("C04:early-reply-lost:{}", if r == Res::Hang { "hang" } else { "other" }),
+            format!("AsyncClient: the reply to request {} arrived while its write was still blocked after {} bytes; the call returned {r:?}", hdr.id, 48 + k),
+        ));
+    }
+    if let Some(h2) = second {
+        // the queued call's request follows the large frame; answer it
+        let mut rest = first[..].to_vec();
+        rest.extend(ctl.a_to_b.take());
+        match crate::frames::split_stream(&rest) {
+            Ok((frames_seen, 0)) if frames_seen.len() == 2 => {
+                ctl.b_to_a.push(&clients::reply(frames_seen[1].h.id).to_bytes());
+                let r2 = clients::join_call(h2).await;
+                if r2 != Res::Id(frames_seen[1].h.id) {
+                    bad.push(("C04:wrong-response:queued".into(), format!("the call queued behind the blocked write returned {r2:?}, expected id {}", frames_seen[1].h.id)));
+                }
+            }
+            other => bad.push(("C04:early:stream".into(), format!("bytes after the stall do not form the two expected frames: {:?}", other.map(|(f, r)| (f.len(), r))))),
+        }
+    }
+    drop(peer_end);
+    (bad, flags)
+}
+
+pub fn run(tier: Tier) -> ! {
+    let ctx = Ctx::new("C04", tier);
+    let all = scenarios(tier);
+    let samples = Samples::new(4);
+    samples.offer(|| json!(format!("{:?}", all[all.len() / 3])));
+    samples.offer(|| json!(format!("{:?}", all[all.len() - 1])));
+    let parts = par::for_each_index(
+        all.len() as u64,
+        64,
+        |_| {
+            let rt = tokio::runtime::Builder::new_current_thread().enable_time().start_paused(true).build().unwrap();
+            (rt, Vec::<(usize, String, String)>::new(), BTreeMap::<u64, u64>::new(), 0u64)
+        },
+        |(rt, bad, flagc, n), i| {
+            let sc = &all[i as usize];
+            let (b, flags) = rt.block_on(async {
+                match sc {
+                    Scenario::Perm { kind, n, perm, extra, pos, burst } => run_perm(*kind, *n, perm, *extra, *pos, *burst).await,
+                    Scenario::Batch { kind, n, perm } => run_batch(*kind, *n, perm).await,
+                    Scenario::Early { k, queued_behind } => run_early(*k, *queued_behind).await,
+                }
+            });
+            *n += 1;
+            for bit in 0..6 {
+                if flags & (1 << bit) != 0 {
+                    *flagc.entry(bit).or_insert(0) += 1;
+                }
+            }
+            for (k, w) in b {
+                if bad.len() < 50 {
+                    bad.push((i as usize, k, w));
+                }
+            }
+        },
+    );
+    let mut executed = 0u64;
+    let mut flagc = BTreeMap::<u64, u64>::new();
+    let mut bads = Vec::new();
+    for (_, bad, f, n) in parts {
+        executed += n;
+        for (k, v) in f {
+            *flagc.entry(k).or_insert(0) += v;
+        }
+        bads.extend(bad);
+    }
+    bads.sort_by_key(|b| b.0);
+    for (i, k, w) in bads {
+        ctx.violation(k, w, json!({"scenario": format!("{:?}", all[i]), "index": i, "tier": tier.name()}));
+    }
+    let g = |b: u64| flagc.get(&b).copied().unwrap_or(0);
+    if !ctx.has_violation() && (g(0) == 0 || g(2) == 0 || g(3) == 0 || g(4) == 0) {
+        ctx.machinery("vacuous exploration: a scenario family never ran");
+    }
+    let coverage = json!({
+        "states": all.len(),
+        "transitions": executed,
+        "traces_validated_against_impl": executed,
+        "samples": samples.take(),
+        "exhaustive": executed == all.len() as u64,
+        "bound": {"max_concurrent_calls": tier.pick(5, 7), "batch_max": tier.pick(5, 6)},
+        "nonvacuity": {
+            "non_identity_reply_orders": g(0),
+            "notify_consumed_by_call_on_AsyncClient(allowed)": g(1),
+            "notifies_routed_to_subscriber": g(2),
+            "batch_scenarios": g(3),
+            "replies_overtaking_a_blocked_write": g(4),
+        },
+        "rule": "for both tokio clients over an in-memory stream on a paused single-threaded runtime: n concurrent calls, every permutation of the n replies, one extra frame (unknown id / duplicate of reply j / notify reusing in-flight id j) at every position, delivered one by one or in one burst; batch_json under every reply order; AsyncClient replies injected while the request's write is blocked after 48+k bytes",
+    });
+    ctx.finish(
+        "model_checking",
+        coverage,
+        &[
+            "tokio task interleavings are removed by a single-threaded runtime and a paused clock: the only scheduling freedom is what the scripted peer induces",
+            "AsyncClient has no notification API: a notify frame reusing an in-flight id may be consumed by that call or dropped; only other calls must be unaffected",
+            "the blocking Client's correlation is decided at lock granularity by the loom part",
+        ],
+    )
+}
+
+pub fn replay(case: &Value) -> Result<(), String> {
+    let tier = if case["tier"].as_str() == Some("thorough") { Tier::Thorough } else { Tier::Quick };
+    let all = scenarios(tier);
+    let i = case["index"].as_u64().ok_or("index")? as usize;
+    let sc = all.get(i).ok_or("index out of range")?;
+    let (b, _) = memstream::run_paused(async {
+        match sc {
+            Scenario::Perm { kind, n, perm, extra, pos, burst } => run_perm(*kind, *n, perm, *extra, *pos, *burst).await,
+            Scenario::Batch { kind, n, perm } => run_batch(*kind, *n, perm).await,
+            Scenario::Early { k, queued_behind } => run_early(*k, *queued_behind).await,
+        }
+    });
+    if b.is_empty() { Ok(()) } else { Err(b.into_iter().map(|(k, w)| format!("{k}: {w}")).collect::<Vec<_>>().join("\n")) }
+}
+
+#[allow(dead_code)]
+fn _unused(_: &Peer) {}
